@@ -1,6 +1,7 @@
 import RtenVerif.Lemmas.ExecutorRun
 import RtenVerif.Lemmas.ExecutorOrderMain
 import RtenVerif.Lemmas.ExecutorCaps
+import RtenVerif.Lemmas.ExecutorDemoOps
 import RtenVerif.Lemmas.PlannerSpec
 /-!
 # C02 — Run results are independent of execution strategy
@@ -209,9 +210,11 @@ def capG : Graph :=
   { nodes := [.value, .value, .operator { inputs := [some 0], outputs := [some 1], inPlace := true }]
     captures := [0] }
 
-def capOps : Ops Nat :=
-  { len := fun v => v, inPlaceIdx := fun i => if i = 2 then [0] else [], isSubgraph := fun _ => false
-    run := fun i _ _ => some [i], runInPlace := fun i _ _ => some [i] }
+/-- `Add`-like, value-dependent operators (`Lemmas/ExecutorDemoOps.lean`). -/
+def capOps : Ops Nat := sumOps (fun i => if i = 2 then [0] else [])
+
+theorem capOps_contract : Contract capOps capG :=
+  sumOps_contract _ _ _ (fun i => by split <;> simp) (fun _ _ => rfl)
 
 def capRun : Run Nat :=
   { g := capG, consts := fun _ => 0, borrowed := fun _ => none, owned := fun _ => none }
@@ -264,9 +267,7 @@ theorem capEnv_wf : CapsWF capRun (capEnv false) := by
 /-- Instance of `c02_T3_refinement_caps_partial` (by-reference capture: read, never taken). -/
 example : (runPlan capOps capRun (capEnv false) [2] [1]).outcome =
     evalNaive capOps capRun (capEnv false) [2] [1] :=
-  c02_T3_refinement_caps_partial capRun_wf capEnv_wf
-    ⟨fun i => by simp only [capOps]; split <;> simp, fun _ _ => rfl, fun _ _ _ _ _ _ _ _ _ => rfl⟩
-    (by decide) (by decide)
+  c02_T3_refinement_caps_partial capRun_wf capEnv_wf capOps_contract (by decide) (by decide)
 
 /-- The same body with the capture passed **by value** (a test by `decide`, not covered by the
 theorem): the executor takes the capture in place (`taken = [(0, 0)]`) and still returns what
@@ -381,14 +382,10 @@ def demoG : Graph :=
       .operator { inputs := [some 1, some 2], outputs := [some 3], inPlace := true, commutative := true },
       .operator { inputs := [some 3, some 3], outputs := [some 4] }] }
 
-/-- Operators with a constant result (so the contract holds trivially) but real in-place
-declarations, so the executor does take values in place; values are their own length. -/
-def demoOps : Ops Nat :=
-  { len := fun v => v
-    inPlaceIdx := fun i => if i = 5 ∨ i = 6 then [0] else []
-    isSubgraph := fun _ => false
-    run := fun i _ _ => some [i]
-    runInPlace := fun i _ _ => some [i] }
+/-- `Add`-like operators (`sumOps`: the result is the sum of the operands plus the node id, so
+every operator reads every operand, and `run_in_place` really uses the taken value) with
+in-place declarations for operators 5 and 6; values are their own length. -/
+def demoOps : Ops Nat := sumOps (fun i => if i = 5 ∨ i = 6 then [0] else [])
 
 def demoRun (ownedX : Bool) (pool nip : Bool) : Run Nat :=
   { g := demoG, consts := fun _ => 3
@@ -421,11 +418,9 @@ theorem demo_wf (o p n : Bool) : WF (demoRun o p n) := by
       simp [getOp, getNode, demoRun, demoG] at hop <;> subst hop <;>
       simp [opOutputs] at ho' <;> subst ho' <;> rfl
 
-theorem demo_contract : Contract demoOps demoG := by
-  refine ⟨?_, fun _ _ => rfl, fun _ _ _ _ _ _ _ _ _ => rfl⟩
-  intro i
-  simp only [demoOps]
-  split <;> simp
+/-- The contract holds for this value-dependent table (`sumOps_contract`). -/
+theorem demo_contract : Contract demoOps demoG :=
+  sumOps_contract _ _ _ (fun i => by split <;> simp) (fun _ _ => rfl)
 
 /-- The demo run takes `x` in place at step 5 (owned input, count 1), takes `a` in place at
 step 6 (commutative operator, candidate at position 1), releases `b` after step 7, and —
@@ -436,8 +431,8 @@ example : (runPlan demoOps (demoRun true true false) nocap [5, 6, 7] [4]).steps 
       { op := 7, rip := false, taken := [], byVal := [], stored := [4], released := [3] } ] := by
   decide
 
-example : (runPlan demoOps (demoRun true true false) nocap [5, 6, 7] [4]).outcome = .ok [7] ∧
-    evalNaive demoOps (demoRun true true false) nocap [5, 6, 7] [4] = .ok [7] := by decide
+example : (runPlan demoOps (demoRun true true false) nocap [5, 6, 7] [4]).outcome = .ok [51] ∧
+    evalNaive demoOps (demoRun true true false) nocap [5, 6, 7] [4] = .ok [51] := by decide
 
 /-- Instance of the corollary: owned + pool + in place vs borrowed + no pool + reference mode. -/
 example : (runPlan demoOps (demoRun true true false) nocap [5, 6, 7] [4]).outcome =
@@ -592,9 +587,10 @@ theorem twoFailing_disj : Disj twoFailing [3, 4] := by
   · exact hne rfl
 
 /-- Operators that succeed on the graph `twoFailing` (two independent operators). -/
-def okOps : Ops Nat :=
-  { len := fun _ => 1, inPlaceIdx := fun _ => [], isSubgraph := fun _ => false
-    run := fun i _ _ => some [i], runInPlace := fun i _ _ => some [i] }
+def okOps : Ops Nat := sumOps (fun _ => [])
+
+theorem okOps_contract : Contract okOps twoFailing :=
+  sumOps_contract _ _ _ (fun _ => List.nodup_nil) (fun _ h => absurd rfl h)
 
 def twoRun : Run Nat :=
   { g := twoFailing, consts := fun _ => 0
@@ -616,11 +612,63 @@ theorem twoRun_wf : WF twoRun := by
     simp [opOutputs] at ho <;> subst ho <;> rfl
 
 /-- Non-vacuity of `c02_order_independent`: both orders of two independent operators. -/
-example : (runPlan okOps twoRun nocap [4, 3] [1, 2]).outcome = .ok [3, 4] :=
-  c02_order_independent (ins := [0]) twoRun_wf rfl
-    ⟨fun _ => List.nodup_nil, fun _ h => absurd rfl h, fun _ _ _ _ _ _ _ _ _ => rfl⟩
+example : (runPlan okOps twoRun nocap [4, 3] [1, 2]).outcome = .ok [13, 14] :=
+  c02_order_independent (ins := [0]) twoRun_wf rfl okOps_contract
     (by intro d hd; simp at hd; subst hd; rfl) (by decide) (by decide) twoFailing_disj
     twoFailing_valid34 twoFailing_valid43 (by intro i; simp; omega) (by decide)
+
+/-! ### Joint closed witness for `c02_plan_independent`: `PlanOK ∧ UniqueProducer ∧ WF ∧ Contract` -/
+
+theorem twoFailing_unique : UniqueProducer twoFailing := by
+  intro p op v hop hv
+  have hp : p < 5 := by
+    unfold getOp getNode at hop
+    by_cases hp : p < 5
+    · exact hp
+    · have : twoFailing.nodes[p]? = none := by
+        apply List.getElem?_eq_none; simp [twoFailing]; omega
+      rw [this] at hop; simp at hop
+  have : p = 0 ∨ p = 1 ∨ p = 2 ∨ p = 3 ∨ p = 4 := by omega
+  rcases this with rfl | rfl | rfl | rfl | rfl <;>
+    simp [getOp, getNode, twoFailing] at hop <;> subst hop <;>
+    simp [opOutputs] at hv <;> subst hv <;> rfl
+
+theorem twoFailing_needed3 : Needed twoFailing (resolvedNew twoFailing [0] false) [1, 2] 3 :=
+  .root (o := 1) (by simp) (by decide) (by rfl)
+
+theorem twoFailing_needed4 : Needed twoFailing (resolvedNew twoFailing [0] false) [1, 2] 4 :=
+  .root (o := 2) (by simp) (by decide) (by rfl)
+
+theorem twoFailing_planOK34 :
+    PlanOK twoFailing false (resolvedNew twoFailing [0] false) [1, 2] [3, 4] := by
+  refine ⟨by decide, twoFailing_valid34, ?_, ?_⟩
+  · intro o ho
+    simp only [List.mem_cons, List.not_mem_nil, or_false] at ho
+    rcases ho with rfl | rfl <;> exact Or.inl (by decide)
+  · intro i hi
+    simp only [List.mem_cons, List.not_mem_nil, or_false] at hi
+    rcases hi with rfl | rfl
+    · exact twoFailing_needed3
+    · exact twoFailing_needed4
+
+theorem twoFailing_planOK43 :
+    PlanOK twoFailing false (resolvedNew twoFailing [0] false) [1, 2] [4, 3] := by
+  refine ⟨by decide, twoFailing_valid43, ?_, ?_⟩
+  · intro o ho
+    simp only [List.mem_cons, List.not_mem_nil, or_false] at ho
+    rcases ho with rfl | rfl <;> exact Or.inl (by decide)
+  · intro i hi
+    simp only [List.mem_cons, List.not_mem_nil, or_false] at hi
+    rcases hi with rfl | rfl
+    · exact twoFailing_needed4
+    · exact twoFailing_needed3
+
+/-- All hypotheses of `c02_plan_independent` hold together on a closed instance with
+value-dependent operators: the two `PlanOK` plans `[3,4]` and `[4,3]` of one request. -/
+example : (runPlan okOps twoRun nocap [4, 3] [1, 2]).outcome = .ok [13, 14] :=
+  c02_plan_independent (ins := [0]) twoRun_wf rfl okOps_contract twoFailing_unique
+    (by intro d hd; simp at hd; subst hd; rfl) (by decide) twoFailing_planOK34 twoFailing_planOK43
+    (by decide)
 
 /-! Without single assignment the naive result (and the executor's) does depend on the order: -/
 
